@@ -79,7 +79,7 @@ class C09(vlib.Check):
     rule = ("pairs and triples built from a seeded fingerprint and its near variants (equal, subset, superset, level, bits, "
             "one count, one float count changed by a factor 1+2^-k for k in {16,17,20,40}, other kind), compared with ==/!= in both directions; copies (from_fingerprint, pickle, conversion "
             "to another kind and back) mutated through every public setter; half of the originals are folded (linked) before being "
-            "copied and the copy's folded child is then changed. Non-trivial: non-empty operands; distinct by case.")
+            "copied and the copy's folded child is then changed; fingerprints of 5 - 1000 on-bits that were compared, then edited in place / pickled and compared in another interpreter process. Non-trivial: non-empty operands; distinct by case.")
     trusted_base = ["pickle (compared on every run)"]
 
     def gen_cases(self):
